@@ -181,7 +181,8 @@ func (cm *cmafIngesterMgr) NewCmafIngester(req CmafIngesterSetup) (nr uint64, er
 		nextSegTrigger: make(chan struct{}),
 	}
 	if c.dur != nil {
-		c.nrSegsToSend = m.Ptr(*c.dur * 1000 / asset.SegmentDurMS)
+		// Round up so that the segments sent cover the full duration
+		c.nrSegsToSend = m.Ptr((*c.dur*1000 + asset.SegmentDurMS - 1) / asset.SegmentDurMS)
 	}
 	cm.ingesters[nr] = &c
 
@@ -307,7 +308,7 @@ func (c *cmafIngester) start(ctx context.Context) {
 	lastSegNrToSend := -1
 
 	if c.nrSegsToSend != nil {
-		lastSegNrToSend = nextSegNr + *c.nrSegsToSend
+		lastSegNrToSend = nextSegNr + *c.nrSegsToSend - 1
 	}
 	if lastSegNrToSend > 0 {
 		c.log.Debug("First and last segment number to send", "first", nextSegNr, "last", lastSegNrToSend)
